@@ -50,9 +50,19 @@ func (w *vWorld) newValue(kind int, tag byte) vValue {
 	default:
 		inner = &pbv1.Duty{Slot: 1000 + uint64(tag), Type: int32(tag%13) + 1}
 	}
-	a, err := anypb.New(inner)
-	if err != nil {
-		w.h.t.Fatal(err)
+	// deterministic bytes (anypb.New marshals maps in random order, which would make runs irreproducible)
+	a := &anypb.Any{TypeUrl: "type.googleapis.com/" + string(inner.ProtoReflect().Descriptor().FullName()), Value: vDet(inner)}
+	if uds, ok := inner.(*pbv1.UnsignedDataSet); ok && len(uds.GetSet()) == 2 {
+		// a valid NON-canonical encoding of the same message: the two map entries in descending key order
+		var ks []string
+		for k := range uds.GetSet() {
+			ks = append(ks, k)
+		}
+		sort.Sort(sort.Reverse(sort.StringSlice(ks)))
+		a.Value = nil
+		for _, k := range ks {
+			a.Value = append(a.Value, vDet(&pbv1.UnsignedDataSet{Set: map[string][]byte{k: uds.GetSet()[k]}})...)
+		}
 	}
 	hash, err := hashProto(inner)
 	if err != nil {
